@@ -52,6 +52,9 @@ FRAGMENTS = {
     'bpti-ss': ('integration_tests/tier-1/bpti/aa.pdb', [(None, 4, 6), (None, 54, 56)]),   # disulfide 5-55
     # two chains (the second range re-lettered to chain B): ALA VAL ILE ASN / THR LEU LYS LYS
     'bta-two-chains': ('1bta.pdb', [('A', 3, 6, 'A'), ('A', 19, 22, 'B')]),
+    # longer pieces for the elastic-network options (C15): one chain of ten residues; two chains of four and three residues
+    'bta3-12': ('1bta.pdb', [('A', 3, 12)]),
+    'bta-two-chains-6': ('1bta.pdb', [('A', 3, 8, 'A'), ('A', 19, 21, 'B')]),
 }
 OPTIONS = {
     'default': [],
